@@ -106,7 +106,7 @@ pub fn run_on_fresh_thread(ops: &[Op], seq: &[usize]) -> Vec<String> {
 
 /// outcome of op `k` of property `id` in a fresh process (`nvcheck <ID> --ops <k>`)
 pub fn baseline_in_fresh_process(id: &str, k: usize) -> String {
-    let exe = match std::env::current_exe() {
+    let exe = match Ok::<std::path::PathBuf, std::io::Error>(std::path::PathBuf::from("/proc/self/exe")) {
         Ok(e) => e,
         Err(e) => return format!("MACHINERY: {e}"),
     };
